@@ -9,6 +9,7 @@ DEFAULT_WEIGHTS = {
     "advance": 10, "stake": 14, "unstake": 9, "submit": 7, "deliver": 6, "rewards": 5, "withdraw": 8,
     "ack": 10, "timeout": 3, "recover": 5, "stray": 2, "breaker": 1, "resume": 2, "update_config": 2,
     "validators": 1, "ownership": 3, "fee_withdraw": 2, "donate": 1, "unauthorized": 4, "garbage": 1,
+    "outage": 1,
 }
 
 
@@ -56,6 +57,65 @@ class Gen:
         have = self.h.bal(who, denom)
         if have < amount:
             self.h.event({"ev": "faucet", "to": who, "coin": coin(denom, amount - have)})
+
+    def identity(self, role):
+        """(channel, native sender) a Receive* hook is delivered with: normally the identity the contract
+        is configured with *now*; sometimes one it was configured with earlier (stale after an update)"""
+        r = self.rng
+        su = self.su
+        try:
+            c = self.h.config()
+            cur = (c["protocol_chain_config"]["ibc_channel_id"],
+                   c["native_chain_config"]["staker_address" if role == "staker" else "reward_collector_address"])
+        except Exception:  # noqa: BLE001
+            cur = (su.channel, su.staker if role == "staker" else su.collector)
+        seen = self.h.__dict__.setdefault("identities_" + role, [])
+        if cur not in seen:
+            seen.append(cur)
+        boot = (su.channel, su.staker if role == "staker" else su.collector)
+        if boot not in seen:
+            seen.append(boot)
+        stale = [x for x in seen if x != cur]
+        if stale and r.random() < 0.2:
+            return r.choice(stale)
+        return cur
+
+    def ev_outage(self):
+        """a burst of outbound transfers that all fail (channel outage), then recoveries: more refundable
+        packets of one receiver than one page (10) of a paginated recovery holds"""
+        r = self.rng
+        su = self.su
+        h = self.h
+        st = h_state(h)
+        if st is None or h.config().get("stopped"):
+            return self.ev_resume()
+        k = r.choice([11, 12, 13, 21])
+        use_rewards = int(st["total_liquid_stake_token"]) > 0 and r.random() < 0.4
+        for i in range(k):
+            if use_rewards:
+                ch, who = self.identity("collector")
+                h.event({"ev": "hook", "channel": ch, "native_sender": who, "coin": coin(STAKED, 1000 + i),
+                         "msg": {"receive_rewards": {}}, "faults": {}})
+            else:
+                u = r.choice(su.users)
+                amt = max(su.min_stake, 1000) + i
+                self.ensure_funds(u, STAKED, amt)
+                h.event(exec_ev(u, {"liquid_stake": {"mint_to": None, "transfer_to_native_chain": None, "expected_mint_amount": None}},
+                                [coin(STAKED, amt)], None, tx=i % 3))
+            if r.random() < 0.15:
+                h.event({"ev": "advance", "dt": str(r.choice([1, NS])), "dh": 1})
+        for p in list(h.pkts("pending")):
+            x = r.random()
+            if x < 0.55:
+                h.event({"ev": "timeout", "seq": p["seq"]})
+            elif x < 0.95:
+                h.event({"ev": "ack", "seq": p["seq"], "success": False})
+        out = []
+        for _ in range(r.choice([1, 2, 3])):
+            pag = r.choice([True, True, True, None, False])
+            out.append(exec_ev(self.some_user(), {"recover_pending_ibc_transfers": {
+                "paginated": pag, "selected_packets": None, "receiver": r.choice([None, None, su.staker])}}, [], self.faults()))
+        return out
 
     # -- event builders; each returns a list of events (usually one) --
     def ev_advance(self):
@@ -118,7 +178,7 @@ class Gen:
         elif y < 0.07:
             funds = [coin(STAKED, amt), coin(su.lst, 1)]
         msg = {"liquid_stake": {"mint_to": mint_to, "transfer_to_native_chain": flag, "expected_mint_amount": expected}}
-        return [exec_ev(who, msg, funds, self.faults(), tx=r.choice([0, 0, 1, 7]))]
+        return [exec_ev(who, msg, funds, self.faults(), tx=r.choice([0, 0, 1, 7, None]))]
 
     def ev_unstake(self):
         r = self.rng
@@ -148,7 +208,7 @@ class Gen:
         else:
             bid = r.choice([0, 1, 2, 99])
             amt = self.amount()
-        sender, ch = su.staker, su.channel
+        ch, sender = self.identity("staker")
         x = r.random()
         if x < 0.08:
             sender = su.impostor
@@ -166,7 +226,7 @@ class Gen:
         r = self.rng
         su = self.su
         amt = self.amount()
-        sender, ch = su.collector, su.channel
+        ch, sender = self.identity("collector")
         x = r.random()
         if x < 0.08:
             sender = su.impostor
@@ -174,7 +234,8 @@ class Gen:
             ch = su.other_channel
         elif x < 0.15:
             sender = su.staker
-        return [{"ev": "hook", "channel": ch, "native_sender": sender, "coin": coin(STAKED, amt),
+        denom = STAKED if r.random() < 0.96 else su.lst      # the authorised sender, but not the staked asset
+        return [{"ev": "hook", "channel": ch, "native_sender": sender, "coin": coin(denom, amt),
                  "msg": {"receive_rewards": {}}, "faults": self.faults() or {}}]
 
     def ev_withdraw(self):
@@ -298,6 +359,9 @@ class Gen:
                                                         minimum_liquid_stake_amount=str(r.choice([1, 100, 1000])))
             if r.random() < 0.15:
                 msg["protocol_chain_config"]["ibc_channel_id"] = r.choice(["channel-+7", "channel-", "channel-x", "channel-07"])
+            elif r.random() < self.h.profile.get("reroute", 0.08):
+                # a valid new route (leaves the hypotheses of the ledger equations for the rest of the history)
+                msg["protocol_chain_config"]["ibc_channel_id"] = r.choice([su.other_channel, "channel-9", su.channel])
         elif x < 0.7:
             msg["batch_period"] = r.choice([0, 1, 3600, DAY, DAY, 2 ** 64 - 1])
         elif x < 0.8:
@@ -305,6 +369,10 @@ class Gen:
         elif x < 0.9:
             msg["native_chain_config"] = su.native_cfg(unbonding_period=r.choice([0, 1, DAY, 21 * DAY, 21 * DAY, 2 ** 64 - 1]),
                                                        validators=r.choice([su.validators[:1], su.validators]))
+            if r.random() < self.h.profile.get("reroute", 0.08):
+                from . import bech32 as _b
+                k = r.choice(["staker_address", "reward_collector_address"])
+                msg["native_chain_config"][k] = _b.addr(su.native_prefix, r.choice(["staker2", "collector2"]))
         else:
             msg["protocol_fee_config"] = {"dao_treasury_fee": "10000", "treasury_address": r.choice([su.staker, "x", su.treasury.upper()])}
         if r.random() < 0.35:
